@@ -132,7 +132,10 @@ NETMC_RULES = {
            "constraint in (rational,eps) arithmetic; every tableau row holds on the values; lb<=value<=ub; bounds contain the exact "
            "projection of the solution set; every theory conflict and lemma is valid; refused decisions are infeasible (C07 oracle).",
     "C10": "for IDL and RDL (matrix starts at size 2, so growth is exercised): ALL 3-subsets of {to-from<=d} over 4 points (origin "
-           "included) with d in {-1,0,1} (thorough: -2..2 and half-integers for RDL) that touch <=3 points; histories: ALL sequences "
+           "included) with d in {-1,0,1} (thorough: -2..2 and half-integers for RDL) that touch <=3 points, plus 'relaxation' networks (two bounds on a direct "
+           "edge, a two-hop path whose length lies between them, a reverse edge and an atom it decides, with EVERY single binary "
+           "clause over the six atoms, explored with decisions on positive literals + pop to depth 5 (thorough 6), so that several "
+           "constraints enter and leave one decision level together); histories: ALL sequences "
            "of assume(+-atom), pop, next up to the depth. Oracle: Floyd-Warshall closure of the asserted literals (false literal = "
            "reverse edge -d-1 resp. -d-eps): no standing negative cycle; every matrix entry equals the closure exactly; every "
            "undecided atom decided by the closure has been propagated; every conflict/lemma negates to a negative cycle; nothing "
